@@ -79,6 +79,33 @@ fn asof_key(form: &str, i: usize, observed: &str) -> String {
     }
 }
 
+/// battery entries whose rows are self-contained (each row spells the ids it depends on), so that
+/// rows mentioning an element a later committed PURGE destroyed can be set aside on both sides
+const SCRUBBABLE: [usize; 9] = [0, 1, 2, 3, 4, 6, 8, 9, 10];
+
+/// drops the rows that mention a purged element
+fn scrub(text: &str, purged: &[String]) -> String {
+    match serde_json::from_str::<serde_json::Value>(text) {
+        Ok(serde_json::Value::Array(a)) => {
+            let rows: Vec<String> = a.iter().map(|r| r.to_string()).filter(|r| !purged.iter().any(|p| r.contains(&format!("\"{}\"", real_id(p))))).collect();
+            format!("[{}]", rows.join(","))
+        }
+        _ => text.to_string(),
+    }
+}
+
+/// replay = recording; after a committed purge of some elements only for what does not depend on
+/// them ("only an explicit purge removes the past"). `None` = not comparable any more.
+fn same_answer(i: usize, recorded: &str, now: &str, purged_since: &[String]) -> Option<bool> {
+    if purged_since.is_empty() {
+        return Some(recorded == now);
+    }
+    if i != usize::MAX && !SCRUBBABLE.contains(&i) {
+        return None;
+    }
+    Some(scrub(recorded, purged_since) == scrub(now, purged_since))
+}
+
 struct Recorded {
     seq: u64,
     tx_id: Option<String>,
@@ -105,7 +132,7 @@ pub async fn run_case(name: &str, cfg: Cfg, mut model: Option<&mut ModelProc>, m
     let mut pre = w.raw_dump().await;
     let mut pre_q = if cfg.atomicity { w.query_dump(&pre).await } else { BTreeMap::new() };
     let mut recorded: Vec<Recorded> = Vec::new();
-    let mut payloads: BTreeMap<String, String> = BTreeMap::new(); // element id -> immutable payload projection
+    let mut purged_log: Vec<(u64, String)> = Vec::new(); // (sequence of the committed purge, element)
     let mut step = 0usize;
     let mut canon = String::new();
     let mut model_alive = model.is_some();
@@ -132,6 +159,7 @@ pub async fn run_case(name: &str, cfg: Cfg, mut model: Option<&mut ModelProc>, m
         res.hits.push(format!("stmt:clauses={}", st.clauses.len().min(6)));
         if st.dry { res.hits.push("stmt:dry".into()); }
 
+        let purge_targets: std::collections::BTreeSet<String> = st.clauses.iter().filter_map(|c| if let Clause::Pg { t: Ref::Id(i), .. } = c { Some(i.clone()) } else { None }).collect();
         let out = w.exec(&st).await;
         let post = w.raw_dump().await;
         match &out {
@@ -152,7 +180,7 @@ pub async fn run_case(name: &str, cfg: Cfg, mut model: Option<&mut ModelProc>, m
         if cfg.atomicity {
             let post_q = w.query_dump(&post).await;
             match &out {
-                Outcome::Done { .. } => res.failures.extend(oracle::check_commit(&out, &pre, &post)),
+                Outcome::Done { .. } => res.failures.extend(oracle::check_commit(&out, &pre, &post, &purge_targets)),
                 Outcome::Odd(s) => res.failures.push(Failure { key: "odd-response".into(), what: "a successful response without a receipt".into(), expected: "receipt".into(), observed: s.clone() }),
                 _ => {
                     let fs = oracle::check_noop(&out, &pre_q, &post_q, &pre, &post);
@@ -169,22 +197,33 @@ pub async fn run_case(name: &str, cfg: Cfg, mut model: Option<&mut ModelProc>, m
 
         // ---------------- C18 oracle: replay every recorded coordinate, then record this one
         if cfg.history {
+            if let Outcome::Done { seq, changes, .. } = &out {
+                for t in &purge_targets {
+                    if changes.iter().any(|c| &c.0 == t) {
+                        purged_log.push((*seq, t.clone()));
+                        res.hits.push("asof:committed-purge".into());
+                    }
+                }
+            }
             for rec in &recorded {
+                let purged_since: Vec<String> = purged_log.iter().filter(|p| p.0 > rec.seq).map(|p| p.1.clone()).collect();
                 let (now, any) = battery(&w, &format!(" AS OF SEQ {}", rec.seq)).await;
                 res.replays += now.len() as u64;
                 for (i, a) in now.iter().enumerate() {
-                    if *a != rec.answers[i] {
+                    let same = same_answer(i, &rec.answers[i], a, &purged_since);
+                    if same.is_none() { res.hits.push("asof:not-comparable-after-purge".into()); }
+                    if same == Some(false) {
                         res.failures.push(Failure { key: asof_key("seq", i, a), what: format!("`{} AS OF SEQ {}{}` differs from what the query returned when {} was the present", BATTERY[i].1, rec.seq, BATTERY[i].2, rec.seq), expected: rec.answers[i].clone(), observed: a.clone() });
                     }
                 }
-                if any != rec.anystate {
+                if same_answer(usize::MAX, &rec.anystate, &any, &purged_since) == Some(false) {
                     res.failures.push(Failure { key: "asof-omits-pending-shell-rows".into(), what: format!("`{} AS OF SEQ {}` differs from the live answer at {}", ANYSTATE.1, rec.seq, rec.seq), expected: rec.anystate.clone(), observed: any });
                 }
                 if let Some(tx) = &rec.tx_id {
                     let (now, _) = battery(&w, &format!(" AS OF TX \"{tx}\"")).await;
                     res.replays += now.len() as u64;
                     for (i, a) in now.iter().enumerate() {
-                        if *a != rec.answers[i] {
+                        if same_answer(i, &rec.answers[i], a, &purged_since) == Some(false) {
                             res.failures.push(Failure { key: asof_key("tx", i, a), what: format!("`{} AS OF TX {tx}` differs from the recording", BATTERY[i].1), expected: rec.answers[i].clone(), observed: a.clone() });
                         }
                     }
@@ -198,7 +237,7 @@ pub async fn run_case(name: &str, cfg: Cfg, mut model: Option<&mut ModelProc>, m
                         let (now, _) = battery(&w, &format!(" AS OF TIME \"{at}\"")).await;
                         res.replays += now.len() as u64;
                         for (i, a) in now.iter().enumerate() {
-                            if *a != rec.answers[i] {
+                            if same_answer(i, &rec.answers[i], a, &purged_since) == Some(false) {
                                 res.failures.push(Failure { key: asof_key("time", i, a), what: format!("`{} AS OF TIME {at}` differs from the recording at sequence {}", BATTERY[i].1, rec.seq), expected: rec.answers[i].clone(), observed: a.clone() });
                             }
                         }
@@ -207,7 +246,9 @@ pub async fn run_case(name: &str, cfg: Cfg, mut model: Option<&mut ModelProc>, m
                     }
                 }
             }
-            // payload immutability across versions (assertions / evidence), from the version log
+            // payload immutability across versions (assertions / evidence), over the rows the version
+            // log holds now (a committed purge destroys the old rows together with the content)
+            let mut payloads: BTreeMap<String, String> = BTreeMap::new();
             for v in &post.vlog {
                 if v.0.starts_with('A') || v.0.starts_with('E') {
                     let row: serde_json::Value = serde_json::from_str(&v.4).unwrap_or_default();
